@@ -438,11 +438,11 @@ def main():
                        'randmio_*_signed are called on empty-diagonal input (property quantifier); the null models clear the diagonal themselves']
     # T-gen: re-extract the core update steps from /repo's current source (translate/cores.py); the generated
     # obligations say the extracted IR is the reference program whose interpreter is proved equal to the model
-    ck.cov['cores'] = cores.generate(families=['util'])
+    ck.cov['cores'] = cores.generate(families=['util', 'nullm'])
     for p_ in ck.cov['cores']['problems']:
         ck.corr_break('core extractor (translate/cores.py)', p_)
     ok = ck.lean_gate(['BctVerif.Props.C06'], extra_modules=['BctVerif.Model.Signed'])
-    ck.lean_gate([], gen_modules=['BctVerif.Gen.CoresUtil'])
+    ck.lean_gate([], gen_modules=['BctVerif.Gen.CoresUtil', 'BctVerif.Gen.CoresNull'])
     if ck.tier == 'thorough' and ok:
         ck.leanchecker(['BctVerif.Props.C06', 'BctVerif.Model.Signed'])
     if ck.replay:
